@@ -4,9 +4,9 @@ package simrt
 // empty table used by an uninstrumented (degraded) build.
 
 const (
-	FlagHotW = 1 << iota // statement may write possibly shared state
-	FlagHotR             // statement may read possibly shared state
-	FlagUncontrolledMap  // map range that could not be canonicalised
+	FlagHotW            = 1 << iota // statement may write possibly shared state
+	FlagHotR                        // statement may read possibly shared state
+	FlagUncontrolledMap             // map range that could not be canonicalised
 )
 
 var SiteFlags []uint8
